@@ -821,6 +821,13 @@ vh_run(const VhTok* tape, size_t n, VhReport* rep)
     x.c.trace("CFG capacity=%zu", cap);
     x.c.mix(cap);
     make_channel(x, cap);
+    if (n && tape[0].kind % K_COUNT == K_CFG) {
+        // the origin of the lap counter is arbitrary too (nothing ever resets it): near 2^8, 2^16, 2^32 laps
+        static const size_t origins[4] = { 0, 250, 65530, 4294967290ull };
+        x.ch.cycle = origins[(tape[0].a >> 6) & 3];
+        if (x.ch.cycle)
+            x.c.trace("    (lap counter starts at %zu)", (size_t)x.ch.cycle);
+    }
 
     for (; ti < n && !x.c.ended; ++ti) {
         const VhTok& t = tape[ti];
